@@ -3,6 +3,7 @@ package main
 import (
 	"fmt"
 	"math/rand/v2"
+	"strings"
 
 	"pvharness/pvcase"
 	"pvharness/pvterm"
@@ -490,6 +491,70 @@ func (cg *caseGen) divergentGrammar() {
 	}
 }
 
+// recHandlerGrammar: a recovery operator with SEVERAL labels that is re-entered recursively while its own guarded expression
+// is being evaluated, with an operator listing only some of those labels in between:
+//
+//	Item  <- ( "(" Inner ")" / "x" %{T1} / "y" %{T2} / "z" ) //{La, Lb} RecA
+//	Inner <- Item //{Lx} RecB
+//	RecA  <- [A-Z] (as a one-element sequence) ; RecB <- [A-Z]
+//
+// which handler a throw reaches is decided by the innermost operator LISTING its label, wherever that label stands in the
+// operator's list and however often the same operator is already on the stack.
+func (cg *caseGen) recHandlerGrammar() {
+	cg.chCount = 0
+	cg.cur = 0
+	pool := []string{"L1", "L2", "L3"}
+	cg.r.Shuffle(3, func(i, j int) { pool[i], pool[j] = pool[j], pool[i] })
+	la, lb := pool[0], pool[1]
+	t1, t2 := lb, la
+	if cg.chance(0.3) {
+		t1, t2 = la, lb
+	}
+	lx := []string{lb}
+	switch cg.r.IntN(4) {
+	case 0:
+		lx = []string{la}
+	case 1:
+		lx = []string{pool[2], lb}
+	}
+	upper := func() *pvcase.Expr {
+		return mkClass(nil, []rune{'A', 'Z'}, nil, false, false, cg.flags.BasicLatin)
+	}
+	ch := cg.newChoice()
+	ch.Kids = []*pvcase.Expr{
+		seqOf(cg.litOf("("), refTo("Inner"), cg.litOf(")")),
+		seqOf(cg.litOf("x"), &pvcase.Expr{Kind: pvcase.KThr, Label: t1}),
+		seqOf(cg.litOf("y"), &pvcase.Expr{Kind: pvcase.KThr, Label: t2}),
+		cg.litOf("z"),
+	}
+	cg.rules = []*pvcase.Rule{
+		{Name: "Item", Expr: &pvcase.Expr{Kind: pvcase.KRec, Kids: []*pvcase.Expr{ch, refTo("RecA")}, Labels: []string{la, lb}}},
+		{Name: "Inner", Expr: &pvcase.Expr{Kind: pvcase.KRec, Kids: []*pvcase.Expr{refTo("Item"), refTo("RecB")}, Labels: lx}},
+		{Name: "RecA", Expr: seqOf(upper())},
+		{Name: "RecB", Expr: upper()},
+	}
+	cg.names = []string{"Item", "Inner", "RecA", "RecB"}
+}
+
+// floodGrammar: S <- .* "never" (kind 1) or S <- A* "never" ; A <- "a" {error} (kind 2)
+func (cg *caseGen) floodGrammar(kind int) {
+	cg.chCount = 0
+	cg.cur = 0
+	never := cg.litOf("never")
+	if kind == 1 {
+		cg.rules = []*pvcase.Rule{{Name: "S", Expr: seqOf(un(pvcase.KStar, &pvcase.Expr{Kind: pvcase.KAny}), never)}}
+		cg.names = []string{"S"}
+		return
+	}
+	a := un(pvcase.KAct, cg.litOf("a"))
+	cg.dupActs = append(cg.dupActs, a)
+	cg.rules = []*pvcase.Rule{
+		{Name: "S", Expr: seqOf(un(pvcase.KStar, refTo("A")), never)},
+		{Name: "A", Expr: a},
+	}
+	cg.names = []string{"S", "A"}
+}
+
 // ------------------------------------------------------------------ cases
 
 func renumber(c *pvcase.Case) {
@@ -681,6 +746,8 @@ func (g *generator) genCase(prof string) ([]*pvcase.Case, *caseGen) {
 		o.Stats = g.chance(0.15)
 	}
 	divergent, lrBudget := false, false
+	flood := 0                                     // error flood under a budget: 1 = undecodable bytes, 2 = action errors
+	recFamily := prof == "throw" && g.chance(0.06) // recursive handlers with several labels (floodGrammar's sibling)
 	// a keyword table: dozens of different terminals tried at one offset (the expected set of a failure there lists all)
 	wide := (prof == "core" || prof == "utf8") && g.chance(0.03)
 	switch prof {
@@ -731,6 +798,14 @@ func (g *generator) genCase(prof string) ([]*pvcase.Case, *caseGen) {
 		} else {
 			o.MaxExpr = g.tightBudget()
 		}
+		if g.chance(0.05) {
+			// a budget that runs out AFTER a hundred or so distinct errors have been recorded (undecodable bytes, or
+			// an action that fails at every position): the budget error must still be reported, as the last one
+			flood = 1 + g.r.IntN(2)
+			divergent, lrBudget = true, false
+			cg.f.wild = false
+			o.Recover = true
+		}
 	}
 	if prof != "utf8" && g.chance(0.08) {
 		o.AllowInvalid = true
@@ -740,6 +815,10 @@ func (g *generator) genCase(prof string) ([]*pvcase.Case, *caseGen) {
 	for attempt := 0; ; attempt++ {
 		cg.dupActs = nil
 		switch {
+		case recFamily:
+			cg.recHandlerGrammar()
+		case flood != 0:
+			cg.floodGrammar(flood)
 		case prof == "lr" || lrBudget:
 			cg.lrGrammar()
 		case wide:
@@ -818,6 +897,33 @@ func (g *generator) genCase(prof string) ([]*pvcase.Case, *caseGen) {
 	}
 	c.Input = cg.makeInput(start, prof == "lr", malformedP)
 	c.Input = clampInput(c, c.Input, prof == "budget" && !divergent)
+	if recFamily {
+		depth := g.r.IntN(4)
+		in := strings.Repeat("(", depth) + pickStr(g.r, []string{"x", "y", "x", "z"}) + pickStr(g.r, []string{"Q", "Q", "q", ""})
+		for i := 0; i < depth; i++ {
+			in += pickStr(g.r, []string{")", ")", ")", "Q)", ""})
+		}
+		c.Input = []byte(in)
+	}
+	if flood != 0 {
+		n := 100 + g.r.IntN(160)
+		k := uint64(100 + g.r.IntN(n-95)) // errors before the budget runs out: both sides of any cap near 100
+		in := make([]byte, n)
+		for i := range in {
+			if flood == 1 {
+				in[i] = []byte{0xff, 0x80, 0xc0, 0xfe, 0xbf}[g.r.IntN(5)]
+			} else {
+				in[i] = 'a'
+			}
+		}
+		c.Input = in
+		o.AllowInvalid = false
+		if flood == 1 {
+			o.MaxExpr = k + uint64(g.r.IntN(4)) // `.` costs one expression per byte
+		} else {
+			o.MaxExpr = 3*k + uint64(g.r.IntN(3)) // reference, action, literal per byte
+		}
+	}
 	if o.Debug && !pvterm.Budgeted(c) && recursionFanout(c) >= 2 {
 		o.Debug = false // debug output makes every expression ~50 times slower
 	}
